@@ -154,6 +154,13 @@ func WriteReplay(prop string, v interface{}) {
 	os.WriteFile(path, b, 0o644)
 }
 
+// DropReplay removes a replay file that was written ahead of a call that might have killed the process.
+func DropReplay(prop string) {
+	if path := os.Getenv("VERIF_REPLAY_OUT"); path != "" {
+		os.Remove(path)
+	}
+}
+
 // ReplayIn returns the replay file to run instead of the generated search ("" if none).
 func ReplayIn() string { return os.Getenv("VERIF_REPLAY_IN") }
 
